@@ -374,7 +374,7 @@ static void worker_main(const Property* P, int w, uint64_t seed, bool thorough) 
     uint64_t pid_hash = fnv(P->id, strlen(P->id));
     while (!__atomic_load_n(&SH->stop, __ATOMIC_RELAXED)) {
         uint64_t idx = __atomic_fetch_add(&SH->next_index, 1, __ATOMIC_RELAXED);
-        uint64_t total = SH->runs + std::min<uint64_t>(SH->runs, 256);   // tail: determinism re-check of the first indices
+        uint64_t total = SH->runs + std::min<uint64_t>(SH->runs, P->recheck);   // tail: determinism re-check of the first indices
         if (idx >= total) break;
         bool recheck = idx >= SH->runs;
         uint64_t ridx = recheck ? idx - SH->runs : idx;
@@ -552,7 +552,7 @@ int main(int argc, char** argv) {
         SH->cur_index[w] = ~0ull;
         __atomic_fetch_add(&SH->done, 1, __ATOMIC_RELAXED);
         if (deaths.size() >= 200 || harness_fail || now_s() - t0 > wall_limit) __atomic_store_n(&SH->stop, 1, __ATOMIC_RELAXED);
-        if (!SH->stop && SH->next_index < SH->runs + std::min<uint64_t>(SH->runs, 256)) spawn(w); else { live--; pids[(size_t)w] = 0; }
+        if (!SH->stop && SH->next_index < SH->runs + std::min<uint64_t>(SH->runs, P->recheck)) spawn(w); else { live--; pids[(size_t)w] = 0; }
     }
     for (auto& f : errfiles) unlink(f.c_str());
     double t_campaign = now_s() - t0;
